@@ -8,6 +8,7 @@ import json
 import os
 import re
 import shutil
+import signal
 import subprocess
 import time
 
@@ -101,7 +102,7 @@ def fidelity(crate, appends, repo, cdir):
 RESULT_RE = re.compile(r'^Checking harness ([\w:]+)\.\.\.', re.M)
 
 
-def run(cdir, harnesses, jobs=8, timeout=3600, extra=None):
+def run(cdir, harnesses, jobs=8, timeout=3600, extra=None, harness_timeout=None):
     """Runs cargo kani for the given harness names; returns dict name -> {status, time, checks, failed:[...], log}."""
     jpath = os.path.join(cdir, 'kani_results.json')
     if os.path.exists(jpath):
@@ -110,20 +111,38 @@ def run(cdir, harnesses, jobs=8, timeout=3600, extra=None):
            '--output-format', 'terse', '--export-json', jpath, '-j', str(jobs)]
     for h in harnesses:
         cmd += ['--harness', h]
+    if harness_timeout:
+        cmd += ['--harness-timeout', '%ds' % int(harness_timeout)]
     if extra:
         cmd += extra
     env = dict(os.environ, CARGO_NET_OFFLINE='true')
     t0 = time.time()
+    # own process group, killed as a whole on timeout: cargo-kani's cbmc children otherwise survive the
+    # timeout and keep tens of GB each
+    pr = subprocess.Popen(cmd, cwd=cdir, stdout=subprocess.PIPE, stderr=subprocess.PIPE, text=True, env=env,
+                          start_new_session=True)
     try:
-        pr = subprocess.run(cmd, cwd=cdir, capture_output=True, text=True, timeout=timeout, env=env)
-        out = pr.stdout + '\n' + pr.stderr
+        so, se = pr.communicate(timeout=timeout)
+        out = so + '\n' + se
         rc = pr.returncode
         timed_out = False
-    except subprocess.TimeoutExpired as e:
-        out = (e.stdout or b'').decode(errors='replace') if isinstance(e.stdout, bytes) else (e.stdout or '')
-        out += (e.stderr or b'').decode(errors='replace') if isinstance(e.stderr, bytes) else (e.stderr or '')
+    except subprocess.TimeoutExpired:
+        try:
+            os.killpg(pr.pid, signal.SIGKILL)
+        except Exception:
+            pass
+        try:
+            so, se = pr.communicate(timeout=30)
+        except Exception:
+            so, se = '', ''
+        out = (so or '') + '\n' + (se or '')
         rc = -9
         timed_out = True
+    finally:
+        try:
+            os.killpg(pr.pid, signal.SIGKILL)
+        except Exception:
+            pass
     wall = time.time() - t0
     res = {}
     try:
